@@ -24,6 +24,16 @@
 (* @obligation C11.keepalive  keep-alive = four zero bytes                                                             *)
 (* @obligation C11.roundtrip  reader(any fragmentation of Encode(m1..mk)) = m1..mk                                     *)
 (* @obligation C11.upcount    reported upload bytes = payload bytes of the piece frames written                        *)
+(*                                                                         *)
+(* TIME is part of the fragmentation: between two deliveries the transport *)
+(* may stay silent until the reader's read deadline expires (Timeout).     *)
+(* The reader tolerates an expired deadline only inside the body of a      *)
+(* block ("piece") of which it received at least one byte since it armed   *)
+(* the deadline (peerreader.readPiece: a slow peer keeps the connection);  *)
+(* a tolerated timeout changes NOTHING in the reader - in particular not   *)
+(* the position inside the block or the stream - any other expired         *)
+(* deadline closes the connection (what was delivered before stays a       *)
+(* prefix of what was written).                                            *)
 (***************************************************************************)
 EXTENDS WireCodec
 
@@ -31,9 +41,11 @@ VARIABLES script,   \* sequence of messages handed to the writer (a leading hand
           ns,       \* how many of them have been written
           net,      \* bytes written and not yet delivered
           wr,       \* writer: [upl, served, log]   log = messages actually emitted
-          rd        \* remote reader, see WireCodec!RdInit
+          rd,       \* remote reader, see WireCodec!RdInit
+          tm        \* reader and time: [got |-> a body byte of the current block arrived since the deadline was armed,
+                    \*                   closed |-> the reader gave up after an expired deadline]
 
-vars == <<script, ns, net, wr, rd>>
+vars == <<script, ns, net, wr, rd, tm>>
 
 PLenLimbs(m) == << PLen(m) \div 65536, PLen(m) % 65536 >>
 ReqOf(m)     == << m.index, m.begin, PLenLimbs(m) >>
@@ -51,8 +63,20 @@ WrStep(w, m) ==
 
 HasHs(s) == s # <<>> /\ s[1].k = "handshake"
 
+\* the reader holds the complete 13-byte header of a block and waits for (more of) its body
+InBlock(r)  == ~r.err /\ r.phase = "msg" /\ Len(r.buf) >= 13 /\ r.buf[5] = 7
+BodyHave(r) == Len(r.buf) - 13
+\* the rule of the reader for an expired read deadline (used by the trace specification as well)
+Tolerated(inBlock, got) == inBlock /\ got
+TmInit == [got |-> FALSE, closed |-> FALSE]
+\* after k bytes were handed over: "got" for the block that is now being read
+GotAfter(r, r2, k, g) ==
+    IF ~InBlock(r2) THEN FALSE
+    ELSE IF InBlock(r) /\ Len(r2.buf) = Len(r.buf) + k THEN TRUE          \* same block, k >= 1 more body bytes
+    ELSE BodyHave(r2) > 0                                                  \* a new block: bytes that came with its header count
+
 InitWith(s) ==
-    /\ script = s /\ ns = 0 /\ net = <<>> /\ wr = WrInit /\ rd = RdInit(HasHs(s))
+    /\ script = s /\ ns = 0 /\ net = <<>> /\ wr = WrInit /\ rd = RdInit(HasHs(s)) /\ tm = TmInit
 
 \* the writer serialises the next message (any admissible encoding of it)
 Send ==
@@ -61,16 +85,25 @@ Send ==
        /\ \E e \in Encodings(Emitted(wr, m)) : net' = net \o e
        /\ wr' = WrStep(wr, m)
     /\ ns' = ns + 1
-    /\ UNCHANGED <<script, rd>>
+    /\ UNCHANGED <<script, rd, tm>>
 
 \* the transport hands the first k pending bytes to the reader
 Deliver(k) ==
+    /\ ~tm.closed
     /\ k \in 1 .. Len(net)
     /\ rd' = Feed(rd, SubSeq(net, 1, k))
     /\ net' = SubSeq(net, k + 1, Len(net))
+    /\ tm' = [tm EXCEPT !.got = GotAfter(rd, rd', k, tm.got)]
     /\ UNCHANGED <<script, ns, wr>>
 
-Next == Send \/ \E k \in 1 .. Len(net) : Deliver(k)
+\* the transport stays silent until the reader's deadline expires.  A tolerated timeout re-arms the deadline and
+\* leaves the reader exactly where it was; every other one ends the connection.
+Timeout ==
+    /\ ~tm.closed
+    /\ tm' = IF Tolerated(InBlock(rd), tm.got) THEN [tm EXCEPT !.got = FALSE] ELSE [tm EXCEPT !.closed = TRUE]
+    /\ UNCHANGED <<script, ns, net, wr, rd>>
+
+Next == ~tm.closed /\ (Send \/ (\E k \in 1 .. Len(net) : Deliver(k)) \/ Timeout)
 
 -----------------------------------------------------------------------------
 Expected == SelectSeq(wr.log, Visible)
@@ -79,12 +112,16 @@ Expected == SelectSeq(wr.log, Visible)
 ReaderPrefix == ~rd.err /\ IsPrefix(rd.out, Expected)
 \* C11.roundtrip, completeness half: once every written byte is delivered the reader has produced
 \* exactly the messages written and holds no partial frame -- for every fragmentation
-ReaderComplete == (net = <<>>) => (rd.out = Expected /\ rd.buf = <<>>)
+\* and every sequence of deadline expiries that the reader tolerates
+ReaderComplete == (net = <<>> /\ ~tm.closed) => (rd.out = Expected /\ rd.buf = <<>>)
 
 RECURSIVE SumPiece(_)
 SumPiece(q) == IF q = <<>> THEN 0 ELSE (IF Head(q).k = "piece" THEN Len(Head(q).payload) ELSE 0) + SumPiece(Tail(q))
 \* C11.upcount: what the writer reports equals the block bytes the remote side received
-UploadCount == (net = <<>>) => wr.upl = SumPiece(rd.out)
+UploadCount == (net = <<>> /\ ~tm.closed) => wr.upl = SumPiece(rd.out)
+\* a reader that is inside a block with fresh bytes is never closed by ONE expired deadline (liveness of slow peers,
+\* stated as a safety property of the step): checked as an action property in MC_Wire (SlowPeerKept)
+SlowPeerKept == [][(InBlock(rd) /\ tm.got /\ ~tm.closed /\ net' = net /\ ns' = ns) => (~tm'.closed /\ rd' = rd)]_vars
 
 Inv == ReaderPrefix /\ ReaderComplete /\ UploadCount
 =============================================================================
